@@ -62,7 +62,7 @@ pub fn run(args: &Args) {
          in reach) ; distinct by (config, seed).",
         200,
     );
-    let seqs = args.n(10_000, 600_000);
+    let seqs = args.n(10_000, 5_000_000);
     let mut max_overshoot_ms = 0u64;
     let mut reached_ceiling = 0u64;
     for i in 0..seqs {
